@@ -157,7 +157,7 @@ SPECS['C03'] = dict(
                 'ResultHandler/ApplyResult code.',
     functions=WORKER_FUNCS + ['billiard.pool.ApplyResult._ack', 'ResultHandler on_ack/on_ready'],
     bounds={'quick': '3 tasks per script, outcomes {return, raise Exception, raise BaseException, unserialisable}, quota 0..3, '
-                     'NACK/ACK per task after 0..2 silent polls', 'thorough': '4 tasks'},
+                     'NACK/ACK per task after 0..2 silent polls for the first job, answered at once for the others; two jobs with the first answer after 0..70 silent polls', 'thorough': '4 tasks, outcomes {return, raise, raise BaseException} in the handshake scripts, 0..2 / 0..1 silent polls; slow answer after 0..130 polls'},
     outside=['real pipes and pickling of arbitrary results', 'more than 4 tasks per worker life'],
     assumptions=WORKER_ASSUME,
     trusted_base=TRUST,
@@ -168,9 +168,15 @@ SPECS['C03'] = dict(
       + parts(twin('worker-protocol', 'harness.c03', 'h_protocol_twin', 'a run ending with the recycle status exists'), 9)
       + [ch('worker-unpicklable', 'harness.c03', 'h_unpicklable', 'unserialisable result at any set of positions: exactly one '
             'READY(False, MaybeEncodingError) for that job, loop continues', timeout=(200, 900), nontrivial_witness=True)]
-      + parts(ch('worker-synack', 'harness.c03', 'h_synack', 'NACKed job never executed and not counted; ACKed job runs after the answer',
-                 timeout=(300, 1500)), 4)
-      + parts(twin('worker-synack', 'harness.c03', 'h_synack_twin', 'a run with a refused job exists'), 4),
+      + [ch('worker-task-raises-SystemExit', 'harness.c03', 'h_sysexit', 'a task raising SystemExit(3) or KeyboardInterrupt itself, at any position: reported as '
+            'that job\'s error (type and arguments), one READY, the worker takes the next job', timeout=(200, 900), nontrivial_witness=True)]
+      + tiered(lambda: ch('worker-synack', 'harness.c03', 'h_synack', 'NACKed job never executed and not counted; ACKed job runs after the answer',
+                          timeout=(300, 1500)), 4, 16)
+      + tiered(lambda: twin('worker-synack', 'harness.c03', 'h_synack_twin', 'a run with a refused job exists'), 4, 16)
+      + parts(ch('worker-synack-slow', 'harness.c03', 'h_synack_slow', 'the parent answers the ACK after any number of silent polls (beyond the '
+            'loop\'s 60-poll warning): the accepted job still waits for its own answer, runs (or is refused) once, and the next job gets its '
+            'own answer', timeout=(300, 1200)), 6)
+      + parts(twin('worker-synack-slow', 'harness.c03', 'h_synack_slow_twin', 'a run with the latest answer of the part\'s range exists (the last part: later than the warning threshold)'), 6),
 )
 
 TIMEOUT_FUNCS = ['billiard.pool.TimeoutHandler.handle_event', 'TimeoutHandler.handle_timeouts', 'TimeoutHandler.on_hard_timeout',
@@ -436,7 +442,7 @@ SPECS['C19'] = dict(
            timeout=(300, 1500), nontrivial_witness=True),
         ch('wait-deadline', 'harness.c19', 'h_wait_deadline', 'the readiness wait under join(timeout): a non-positive timeout polls once without blocking, the kernel wait is never '
            'entered without a timeout or with more than was asked', timeout=(300, 1500), nontrivial_witness=True),
-        ch('bootstrap', 'harness.c19', 'h_bootstrap', 'return -> 0, exception -> 1, sys.exit(n) -> n, and n survives kernel + decoder for 0..255', timeout=(300, 1500), nontrivial_witness=True),
+        ch('bootstrap', 'harness.c19', 'h_bootstrap', 'through the child branch of the real Popen._launch: return -> 0, exception -> 1, sys.exit(n) -> n, also when flushing stdout/stderr at exit fails (unwritable, detached, unimplemented, closed); n survives kernel + decoder for 0..255', timeout=(300, 1500), nontrivial_witness=True),
     ],
 )
 
@@ -478,7 +484,7 @@ SPECS['C17'] = dict(
     functions=['billiard.synchronize.Condition.wait', 'Condition.notify', 'Condition.notify_all', 'Event.is_set', 'Event.set', 'Event.clear',
                'Event.wait', 'Lock/RLock/Semaphore/BoundedSemaphore.__init__ (CrossHair)'],
     bounds={'quick': 'Condition: 2 waiters (timed or not, symbolic) || 1 notifier doing 1 operation (notify/notify_all, symbolic), K=35 steps (2 operations, K=54, thorough only); '
-                     'Event: {wait,wait,set}, {wait,set,clear}, {is_set,set,wait}, K=37..51; 6-bit counters; lock recursion depth 1',
+                     'Event: {wait,wait,set}, {wait,set,clear}, {is_set,set,wait} from a clear event, {is_set,clear}, {wait,is_set,clear} from a set event, K=12..51; 6-bit counters; lock recursion depth 1',
             'thorough': 'plus 3 waiters || 1 operation (K=48)'},
     outside=['more threads / operations than listed', 'Condition.wait_for (a loop around wait with clock arithmetic)', 'RLock recursion depth > 1',
              'the kernel semaphore itself (trusted: mutual exclusion, counting, bounded release)'],
@@ -494,7 +500,13 @@ SPECS['C17'] = dict(
         smt('event-wait-wait-set', 'harness.c17', 'ob_event_wws', 'E1-E7', timeout=(900, 3000), replay_function='replay'),
         smt('event-wait-set-clear', 'harness.c17', 'ob_event_wsc', 'E1-E7', timeout=(900, 3000), replay_function='replay'),
         smt('event-isset-set-wait', 'harness.c17', 'ob_event_isw', 'E1-E7', timeout=(900, 3000), replay_function='replay'),
+        smt('event-set:isset-clear', 'harness.c17', 'ob_event_set_ic', 'E1-E7 from a set event: clear() racing is_set() is not lost', timeout=(600, 2000), replay_function='replay'),
+        smt('event-set:wait-isset-clear', 'harness.c17', 'ob_event_set_wic', 'E1-E7 from a set event: clear() racing wait() and is_set()', timeout=(900, 3000), replay_function='replay'),
         smt('cond-3w-1op', 'harness.c17', 'ob_cond_3w_1op', 'W1-W7 on 3 waiters', timeout=(3000, 7000), replay_function='replay', thorough_only=True),
+        ch('fork-ownership', 'harness.c17', 'h_fork', 'every primitive created under the fork start method registers an after-fork hook that '
+           'empties the child\'s ownership record (count 0, not mine) whatever the parent held at the fork: real SemLock.__init__ and C semaphore, '
+           'the child played by running the newly registered hooks', timeout=(120, 600)),
+        twin('fork-ownership', 'harness.c17', 'h_fork_twin', 'a run in which the parent holds the primitive at the fork exists'),
         ch('wrappers', 'harness.c17', 'h_wrappers', 'Lock/RLock/Semaphore/BoundedSemaphore pass (kind, value, maxvalue) to SemLock as documented', timeout=(120, 600), nontrivial_witness=True),
     ],
 )
@@ -520,6 +532,9 @@ SPECS['C02'] = dict(
         + tiered(lambda: twin('sequential', 'harness.c02', 'h_seq_twin', 'the job runs to completion'), 20, 30)
         + tiered(lambda: ch('blocking-consumer', 'harness.c02b', 'h_blocking', 'imap / imap_unordered consumer blocked in next() (no timeout) while results arrive in any '
                             'order: items in input order / same multiset, errors at their position, never a TimeoutError', timeout=(400, 1800), nontrivial_witness=True), 8, 12)
+        + [ch('worker-task-raises-SystemExit', 'harness.c03', 'h_sysexit', 'worker side of "if the function raises ... re-raise that exception (same type and arguments)" for '
+              'the exception types a work loop could mistake for its own shutdown: a task raising SystemExit(3) or KeyboardInterrupt is reported as that job\'s error', timeout=(200, 900),
+              nontrivial_witness=True)]
     ),
 )
 
@@ -543,7 +558,7 @@ SPECS['C07'] = dict(
         + [ch('death-after-close', 'harness.c07', 'h_death_after_close', 'a worker dies in task code after close(): exactly its job fails with WorkerLostError, the '
               'other job keeps its result, join() returns', timeout=(300, 1500)),
            twin('death-after-close', 'harness.c07', 'h_death_after_close_twin', 'join() returns in some such run'),
-           ch('close-during-supervision', 'harness.c07', 'h_midtick', 'close() issued from on_process_down (between reaping and replacing): no worker is started '
+           ch('close-during-supervision', 'harness.c07', 'h_midtick', 'close() issued from on_process_down (between reaping and replacing) or from on_process_up (after the first replacement of a pass that replaces one or two workers): no worker is started '
               'afterwards, join() returns, the running job keeps its result', timeout=(300, 1500), env={'VERIF_PART': '0', 'VERIF_NPART': '2'}),
            ch('close-during-supervision/twin', 'harness.c07', 'h_midtick_twin', 'the callback fires in some run', timeout=(120, 600), expect='refuted',
               twin_of='close-during-supervision', env={'VERIF_PART': '0', 'VERIF_NPART': '2'})]
@@ -590,11 +605,11 @@ SPECS['C16'] = dict(
                 '(b) CrossHair runs the real Queue.put/get timeout logic with a symbolic clock and symbolic answers of the capacity semaphore, '
                 'reader lock and poll: Full iff no capacity, Empty only when the lock, the deadline or poll(remaining) says so, capacity released '
                 'exactly once per item; (c) z3 model-checks JoinableQueue.put/task_done/join and Queue.get compiled from their current source '
-                '(with the compiled Condition of C17 inlined) over all interleavings of producers, feeder, consumer and joiner.',
+                '(with the compiled Condition of C17 inlined) over all interleavings of producers, feeder, consumer and joiner, and (d) Queue.put of two threads racing on the start of the feeder thread.',
     functions=['billiard.queues.Queue._feed', 'Queue.put', 'Queue.get', 'JoinableQueue.put', 'JoinableQueue.task_done', 'JoinableQueue.join',
                'billiard.synchronize.Condition.wait/notify_all (inlined)'],
     bounds={'quick': '(a) <= 3 items; (b) timeout -1(None)..20, clock deltas 0..40; (c) capacity 1, 1 producer x 1 item || feeder || consumer (get, task_done[, one '
-                     'task_done too many]) || joiner, K = 35..48', 'thorough': '(a) <= 5 items; (c) 2 producers'},
+                     'task_done too many]) || joiner, K = 35..48; (d) two threads x one put on a fresh Queue of capacity 2, every interleaving of their semaphore/lock operations and reads/writes of _thread', 'thorough': '(a) <= 5 items; (c) 2 producers'},
     outside=['item identity and per-producer order across the pipe (FIFO of whole messages is C13\'s guarantee; buffer order is (a))',
              'item sizes larger than the pipe buffer; unpickled equality of arbitrary objects', 'SimpleQueue (a locked pipe: its two lock-wrapped '
              'calls are not modelled separately)', 'more producers/consumers than listed'],
@@ -609,6 +624,9 @@ SPECS['C16'] = dict(
         smt('joinable-1', 'harness.c16', 'ob_jq_1', 'capacity never exceeded; join returns only after every earlier put was matched; everybody finishes; counters restored',
             timeout=(900, 3000), replay_function='replay_jq'),
         smt('joinable-overcount', 'harness.c16', 'ob_jq_1_overcount', 'task_done beyond the count raises ValueError', timeout=(900, 3000), replay_function='replay_jq'),
+        smt('first-put-race', 'harness.c16', 'ob_q_feeder', 'two threads racing on the first put of a plain Queue (real Queue.put compiled, _thread a shared '
+            'attribute, Queue._start_thread sliced from its source): exactly one feeder thread is started and neither item is dropped by a second start',
+            timeout=(600, 1200), replay_function='replay_jq'),
         smt('joinable-2', 'harness.c16', 'ob_jq_2', 'same with two producers', timeout=(3000, 7000), replay_function='replay_jq', thorough_only=True),
     ],
 )
@@ -633,5 +651,10 @@ SPECS['C20'] = dict(
     + [ch('shared-referent-and-locks', 'harness.c20', 'h_shared_and_locks', 'a typeid whose callable returns an already tracked object: two proxies, one released, the '
           'other still works and the referent lives until the last is gone; lock-like referent: acquire(blocking, timeout) reaches the referent with exactly '
           'the caller\'s arguments and returns what the local call returns', timeout=(300, 1500)),
-       twin('shared-referent-and-locks', 'harness.c20', 'h_shared_and_locks_twin', 'the scenarios are reached')],
+       twin('shared-referent-and-locks', 'harness.c20', 'h_shared_and_locks_twin', 'the scenarios are reached'),
+       ch('proxies-in-a-forked-child', 'harness.c20', 'h_fork_child', 'a child forked while proxies exist (its whole life through the real BaseProcess._bootstrap: registry '
+          'cleared, real after-fork hooks, target using the inherited proxy, real exit function): the child\'s copies are counted by the server, the child never '
+          'talks on a connection the parent opened (nor the parent on the child\'s), the child\'s exit releases exactly its references, the referent lives on '
+          'for the parent and is disposed of after the parent\'s last proxy', timeout=(300, 1200)),
+       twin('proxies-in-a-forked-child', 'harness.c20', 'h_fork_child_twin', 'a child that wrote through the inherited proxy and exited with 0 exists')],
 )
